@@ -263,6 +263,8 @@ def run_exec_contract(contract, env, call, universe=None, extra_helpers=None):
             viol.append((f'raises[{lab}:must-raise]', f'returned {result!r} although {exc} is required'))
     post = base
     post['result'] = result
+    if base.get('__generator__'):
+        post['Y'] = list(result)   # generator functions: the yielded sequence
     for lab, item in ens.items():
         if item is None:
             continue
